@@ -31,7 +31,7 @@ SYMS = ([["req", i, v] for i in (1, 2) for v in range(3)] + [["release", 1], ["r
         ["load", "json"], ["load", "bin"], ["restart", "json"], ["restart", "bin"]])
 RULE = ("small-scope sweep: all event sequences to length 3 (quick) / 5 (thorough) over a 14-symbol alphabet {request(id in {1,2}, via "
         "in {direct, 0o1, 0o21}), release(id), save json|bin, load json|bin, restart+load json|bin}; seeded sequences of length 4..8 over the same alphabet; seeded histories to length 30 "
-        "with IDs 1..255, vias of level 0..3 and repeated requests that fill parents completely; requests whose origin is no logical address, leases expired through the master's release_address(address), idle update() calls (the table stays as it is, nothing is transmitted), pairs of requests in flight at once (the second arrives 0..70 ms after the first, "
+        "with IDs 1..255, vias of level 0..3 and repeated requests that fill parents completely; requests whose origin is no logical address, leases expired through the master's release_address(address), idle update() calls (the table stays as it is, nothing is transmitted), pairs of requests in flight at once (the second arrives 0..150 ms after the first, "
         "i.e. also while the master waits for the NETWORK_ACK of a routed reply); tables of 0..255 random entries saved and re-loaded by a fresh object in both formats. Non-trivial: at least one lease "
         "was granted; distinct = distinct event sequences")
 ASSUMPTIONS = ["requests are injected as frames on the master's pipes (a relayed request = origin rewritten to the via node)",
@@ -112,7 +112,7 @@ def _pair(xr, ids):
     """two requests in flight at once: the second arrives while the master handles the first - for a first request relayed
     through a node below 0o1 that is while the master listens for the NETWORK_ACK of its routed reply"""
     a, b_ = xr.sample(list(ids), 2) if len(ids) > 1 else (ids[0], ids[0])
-    gap = xr.choice([0, 300, 1500]) if xr.random() < 0.2 else xr.randint(2000, 70000)
+    gap = xr.choice([0, 300, 1500]) if xr.random() < 0.2 else xr.randint(2000, 150000)     # (two waits of route_timeout = 75 ms each: first reply and its repeat)
     return ["pair", a, xr.choice([0o21, 0o21, 0o11, 0o321, 0o31, 0o4444, 0o1]), b_, xr.choice([0o4444, 0o4444, 0o1, 0o21, 0o2, 0o321]), gap]
 
 
